@@ -37,6 +37,8 @@ const ERRS1: [E1; 24] = [
 ];
 
 struct Mock {
+    /// varies the handlers' success values from case to case (every optional member set)
+    salt: u32,
     log: Vec<(&'static str, String)>,
     /// per handler: None = success, Some(i) = ERRS[i]
     table: [Option<usize>; 10],
@@ -44,37 +46,73 @@ struct Mock {
     has_large_blobs: bool,
 }
 
-fn mc_value(id: u8) -> ctap2::make_credential::Response {
-    ctap2::make_credential::ResponseBuilder { fmt: ctap2::AttestationStatementFormat::Packed, auth_data: ctap_types::Bytes::from_slice(&[id, 0xAA]).unwrap() }.build()
+fn mc_value(id: u8, salt: u32) -> ctap2::make_credential::Response {
+    let mut r = ctap2::make_credential::ResponseBuilder {
+        fmt: if salt & 1 == 0 { ctap2::AttestationStatementFormat::Packed } else { ctap2::AttestationStatementFormat::None },
+        auth_data: ctap_types::Bytes::from_slice(&[id, 0xAA, salt as u8]).unwrap(),
+    }
+    .build();
+    r.ep_att = Some(salt & 2 == 0);
+    r.large_blob_key = Some(ctap_types::ByteArray::new([salt as u8; 32]));
+    r.att_stmt = Some(if salt & 4 == 0 {
+        ctap2::AttestationStatement::None(ctap2::NoneAttestationStatement {})
+    } else {
+        ctap2::AttestationStatement::Packed(ctap2::PackedAttestationStatement { alg: -7, sig: ctap_types::Bytes::from_slice(&[id; 9]).unwrap(), x5c: None })
+    });
+    r
 }
-fn ga_value(id: u8) -> ctap2::get_assertion::Response {
+fn ga_value(id: u8, salt: u32) -> ctap2::get_assertion::Response {
     let mut r = ctap2::get_assertion::ResponseBuilder {
-        credential: ctap_types::webauthn::PublicKeyCredentialDescriptor { id: ctap_types::Bytes::from_slice(&[id]).unwrap(), key_type: ctap_types::String::from("public-key") },
+        credential: ctap_types::webauthn::PublicKeyCredentialDescriptor { id: ctap_types::Bytes::from_slice(&[id, salt as u8]).unwrap(), key_type: ctap_types::String::from("public-key") },
         auth_data: ctap_types::Bytes::from_slice(&[id, 0xBB]).unwrap(),
         signature: ctap_types::Bytes::from_slice(&[id, 0xCC]).unwrap(),
     }
     .build();
-    r.number_of_credentials = Some(id as u32);
+    // every optional member set, with values that vary: a dispatcher that edits the handler's
+    // result (clears, defaults or recomputes a member) becomes visible
+    r.number_of_credentials = Some([0u32, 1, 2, 3, 7][(salt % 5) as usize] + id as u32 * 0);
+    r.user_selected = Some(salt & 8 == 0);
+    r.ep_att = Some(salt & 16 == 0);
+    r.large_blob_key = Some(ctap_types::ByteArray::new([id; 32]));
+    let mut u = ctap_types::webauthn::PublicKeyCredentialUserEntity::from(ctap_types::Bytes::from_slice(&[id; 5]).unwrap());
+    u.name = Some(ctap_types::String::from("n"));
+    r.user = Some(u);
     r
 }
-fn cp_value(id: u8) -> ctap2::client_pin::Response {
+fn cp_value(id: u8, salt: u32) -> ctap2::client_pin::Response {
     let mut r = ctap2::client_pin::Response::default();
-    r.retries = Some(id);
+    r.retries = Some(id.wrapping_add(salt as u8));
+    r.uv_retries = Some((salt >> 3) as u8);
+    r.power_cycle_state = Some(salt & 1 == 1);
+    r.pin_token = Some(ctap_types::Bytes::from_slice(&[id; 32]).unwrap());
     r
 }
-fn cm_value(id: u8) -> ctap2::credential_management::Response {
+fn cm_value(id: u8, salt: u32) -> ctap2::credential_management::Response {
     let mut r = ctap2::credential_management::Response::default();
-    r.total_rps = Some(id as u32);
+    r.total_rps = Some(id as u32 + (salt % 4));
+    r.existing_resident_credentials_count = Some(salt % 3);
+    r.max_possible_remaining_residential_credentials_count = Some(salt % 7);
+    r.total_credentials = Some(salt % 5);
+    r.rp_id_hash = Some(ctap_types::ByteArray::new([id; 32]));
     r
 }
-fn lb_value(_id: u8) -> ctap2::large_blobs::Response {
+fn lb_value(_id: u8, _salt: u32) -> ctap2::large_blobs::Response {
     let mut r = ctap2::large_blobs::Response::default();
     r.config = Some(ctap_types::Bytes::new());
     r
 }
-fn gi_value(id: u8) -> ctap2::get_info::Response {
+fn gi_value(id: u8, salt: u32) -> ctap2::get_info::Response {
     let mut r = ctap2::get_info::ResponseBuilder { versions: ctap_types::Vec::new(), aaguid: ctap_types::Bytes::from_slice(&[id; 16]).unwrap() }.build();
-    r.max_msg_size = Some(id as usize);
+    r.max_msg_size = Some([1024usize, 1200, 7609, 0, 64][(salt % 5) as usize]);
+    r.max_serialized_large_blob_array = Some(1024 + (salt % 3) as usize);
+    r.max_creds_in_list = Some((salt % 11) as usize);
+    let mut o = ctap2::get_info::CtapOptions::default();
+    o.large_blobs = Some(salt & 1 == 0);
+    o.client_pin = Some(salt & 2 == 0);
+    o.cred_mgmt = Some(salt & 4 == 0);
+    o.rk = salt & 8 == 0;
+    o.up = salt & 16 == 0;
+    r.options = Some(o);
     r
 }
 
@@ -93,25 +131,25 @@ macro_rules! impl_ctap2 {
         impl ctap2::Authenticator for $ty {
             fn get_info(&mut self) -> ctap2::get_info::Response {
                 self.0.log.push((HANDLERS2[0], String::new()));
-                gi_value(0)
+                gi_value(0, self.0.salt)
             }
             fn make_credential(&mut self, r: &ctap2::make_credential::Request) -> ctap2::Result<ctap2::make_credential::Response> {
-                self.0.outcome2(1, format!("{:?}", r), mc_value(1))
+                { let s = self.0.salt; self.0.outcome2(1, format!("{:?}", r), mc_value(1, s)) }
             }
             fn get_assertion(&mut self, r: &ctap2::get_assertion::Request) -> ctap2::Result<ctap2::get_assertion::Response> {
-                self.0.outcome2(2, format!("{:?}", r), ga_value(2))
+                { let s = self.0.salt; self.0.outcome2(2, format!("{:?}", r), ga_value(2, s)) }
             }
             fn get_next_assertion(&mut self) -> ctap2::Result<ctap2::get_assertion::Response> {
-                self.0.outcome2(3, String::new(), ga_value(3))
+                { let s = self.0.salt; self.0.outcome2(3, String::new(), ga_value(3, s)) }
             }
             fn reset(&mut self) -> ctap2::Result<()> {
                 self.0.outcome2(4, String::new(), ())
             }
             fn client_pin(&mut self, r: &ctap2::client_pin::Request) -> ctap2::Result<ctap2::client_pin::Response> {
-                self.0.outcome2(5, format!("{:?}", r), cp_value(5))
+                { let s = self.0.salt; self.0.outcome2(5, format!("{:?}", r), cp_value(5, s)) }
             }
             fn credential_management(&mut self, r: &ctap2::credential_management::Request) -> ctap2::Result<ctap2::credential_management::Response> {
-                self.0.outcome2(6, format!("{:?}", r), cm_value(6))
+                { let s = self.0.salt; self.0.outcome2(6, format!("{:?}", r), cm_value(6, s)) }
             }
             fn selection(&mut self) -> ctap2::Result<()> {
                 self.0.outcome2(7, String::new(), ())
@@ -124,7 +162,7 @@ macro_rules! impl_ctap2 {
     };
     (@lb true) => {
         fn large_blobs(&mut self, r: &ctap2::large_blobs::Request) -> ctap2::Result<ctap2::large_blobs::Response> {
-            self.0.outcome2(9, format!("{:?}", r), lb_value(9))
+            { let s = self.0.salt; self.0.outcome2(9, format!("{:?}", r), lb_value(9, s)) }
         }
     };
     (@lb false) => {};
@@ -139,14 +177,14 @@ impl ctap1::Authenticator for WithLb {
     fn register(&mut self, r: &ctap1::register::Request<'_>) -> ctap1::Result<ctap1::register::Response> {
         self.0.log.push(("register", format!("{:?}", r)));
         match self.0.table1[0] {
-            None => Ok(reg_value()),
+            None => Ok(reg_value(self.0.salt)),
             Some(i) => Err(ERRS1[i % ERRS1.len()]),
         }
     }
     fn authenticate(&mut self, r: &ctap1::authenticate::Request<'_>) -> ctap1::Result<ctap1::authenticate::Response> {
         self.0.log.push(("authenticate", format!("{:?}", r)));
         match self.0.table1[1] {
-            None => Ok(auth_value()),
+            None => Ok(auth_value(self.0.salt)),
             Some(i) => Err(ERRS1[i % ERRS1.len()]),
         }
     }
@@ -155,28 +193,29 @@ impl ctap1::Authenticator for WithLb {
     }
 }
 
-fn reg_value() -> ctap1::register::Response {
+fn reg_value(salt: u32) -> ctap1::register::Response {
     let key = cosey::EcdhEsHkdf256PublicKey { x: ctap_types::Bytes::from_slice(&[1; 32]).unwrap(), y: ctap_types::Bytes::from_slice(&[2; 32]).unwrap() };
-    ctap1::register::Response::new(5, &key, ctap_types::Bytes::from_slice(&[3; 9]).unwrap(), ctap_types::Bytes::from_slice(&[4; 70]).unwrap(), ctap_types::Bytes::from_slice(&[5; 100]).unwrap())
+    ctap1::register::Response::new(salt as u8, &key, ctap_types::Bytes::from_slice(&[3; 9]).unwrap(), ctap_types::Bytes::from_slice(&[4; 70]).unwrap(), ctap_types::Bytes::from_slice(&[5; 100]).unwrap())
 }
-fn auth_value() -> ctap1::authenticate::Response {
-    ctap1::authenticate::Response { user_presence: 1, count: 0x01020304, signature: ctap_types::Bytes::from_slice(&[6; 71]).unwrap() }
+fn auth_value(salt: u32) -> ctap1::authenticate::Response {
+    // the presence byte and counter vary (0x00, 0x01, 0x02, 0x80, 0xFE ...): the dispatcher must not interpret them
+    ctap1::authenticate::Response { user_presence: [0u8, 1, 2, 0x80, 0xFE, 0xFF, 3][(salt % 7) as usize], count: 0x01020304 ^ salt, signature: ctap_types::Bytes::from_slice(&[6; 71]).unwrap() }
 }
 
 /// (handler index, argument rendering, success value) expected for a request
-fn expect2(req: &ctap2::Request) -> (usize, String, ctap2::Response) {
+fn expect2(req: &ctap2::Request, salt: u32) -> (usize, String, ctap2::Response) {
     use ctap2::{Request as Q, Response as R};
     match req {
-        Q::GetInfo => (0, String::new(), R::GetInfo(gi_value(0))),
-        Q::MakeCredential(r) => (1, format!("{:?}", r), R::MakeCredential(mc_value(1))),
-        Q::GetAssertion(r) => (2, format!("{:?}", r), R::GetAssertion(ga_value(2))),
-        Q::GetNextAssertion => (3, String::new(), R::GetNextAssertion(ga_value(3))),
+        Q::GetInfo => (0, String::new(), R::GetInfo(gi_value(0, salt))),
+        Q::MakeCredential(r) => (1, format!("{:?}", r), R::MakeCredential(mc_value(1, salt))),
+        Q::GetAssertion(r) => (2, format!("{:?}", r), R::GetAssertion(ga_value(2, salt))),
+        Q::GetNextAssertion => (3, String::new(), R::GetNextAssertion(ga_value(3, salt))),
         Q::Reset => (4, String::new(), R::Reset),
-        Q::ClientPin(r) => (5, format!("{:?}", r), R::ClientPin(cp_value(5))),
-        Q::CredentialManagement(r) => (6, format!("{:?}", r), R::CredentialManagement(cm_value(6))),
+        Q::ClientPin(r) => (5, format!("{:?}", r), R::ClientPin(cp_value(5, salt))),
+        Q::CredentialManagement(r) => (6, format!("{:?}", r), R::CredentialManagement(cm_value(6, salt))),
         Q::Selection => (7, String::new(), R::Selection),
         Q::Vendor(op) => (8, format!("{:?}", op), R::Vendor),
-        Q::LargeBlobs(r) => (9, format!("{:?}", r), R::LargeBlobs(lb_value(9))),
+        Q::LargeBlobs(r) => (9, format!("{:?}", r), R::LargeBlobs(lb_value(9, salt))),
         _ => (usize::MAX, String::new(), R::Reset),
     }
 }
@@ -211,7 +250,8 @@ fn g_ctap2(src: &mut Src, obs: &mut Obs) -> CaseResult {
             .map_err(|e| Fail::new("C10:harness:request-rejected", format!("0x{:02x}", e as u8), json!({"input_hex": hex(&msg)})))?;
         decoded
     };
-    let (h, arg, ok_value) = expect2(&req);
+    let salt = src.word();
+    let (h, arg, ok_value) = expect2(&req, salt);
     obs.labelf(format!("ctap2:{}", HANDLERS2.get(h).unwrap_or(&"?")));
     obs.label(if table[h].is_some() { "handler-fails" } else { "handler-succeeds" });
     // non-trivial: the invoked handler's outcome differs from another handler with the same signature
@@ -233,7 +273,7 @@ fn g_ctap2(src: &mut Src, obs: &mut Obs) -> CaseResult {
         (_, Some(i)) => Err(ERRS2[i]),
     };
     for entry in 0..2 {
-        let mut m = WithLb(Mock { log: vec![], table, table1: [None, None], has_large_blobs: true });
+        let mut m = WithLb(Mock { salt, log: vec![], table, table1: [None, None], has_large_blobs: true });
         let got = if entry == 0 {
             ctap2::Authenticator::call_ctap2(&mut m, &req)
         } else {
@@ -256,7 +296,7 @@ fn g_ctap2(src: &mut Src, obs: &mut Obs) -> CaseResult {
     }
     // an authenticator that does not implement large blobs
     if h == 9 {
-        let mut m = NoLb(Mock { log: vec![], table, table1: [None, None], has_large_blobs: false });
+        let mut m = NoLb(Mock { salt, log: vec![], table, table1: [None, None], has_large_blobs: false });
         let got = ctap2::Authenticator::call_ctap2(&mut m, &req);
         obs.label("default-large-blobs");
         if got != Err(E2::InvalidCommand) || !m.0.log.is_empty() {
@@ -264,7 +304,7 @@ fn g_ctap2(src: &mut Src, obs: &mut Obs) -> CaseResult {
         }
     } else if src.chance(1, 4) {
         // the no-large-blobs authenticator behaves identically for everything else
-        let mut m = NoLb(Mock { log: vec![], table, table1: [None, None], has_large_blobs: false });
+        let mut m = NoLb(Mock { salt, log: vec![], table, table1: [None, None], has_large_blobs: false });
         let got = ctap2::Authenticator::call_ctap2(&mut m, &req);
         if got != want || m.0.log.len() != 1 || m.0.log[0].0 != HANDLERS2[h] {
             return Err(fail("nolb-authenticator", "authenticator without large blobs dispatches differently".into()));
@@ -291,9 +331,10 @@ fn g_ctap1(src: &mut Src, obs: &mut Obs) -> CaseResult {
     let apdu = crate::props::c08::frame(0, [1u8, 2, 3][kind], p1, 0, payload, enc).ok_or_else(|| Fail::new("C10:harness:frame", "frame", json!({})))?;
     let cmd = iso7816::Command::<7609>::try_from(&apdu[..]).map_err(|e| Fail::new("C10:harness:apdu", format!("{:?}", e), json!({})))?;
     let req = ctap1::Request::try_from(&cmd).map_err(|e| Fail::new("C10:harness:ctap1-request", format!("{:?}", e), json!({"apdu_hex": hex(&apdu)})))?;
+    let salt = src.word();
     let (hname, arg, want): (&str, String, Result<ctap1::Response, E1>) = match &req {
-        ctap1::Request::Register(r) => ("register", format!("{:?}", r), table1[0].map(|i| Err(ERRS1[i])).unwrap_or(Ok(ctap1::Response::Register(reg_value())))),
-        ctap1::Request::Authenticate(r) => ("authenticate", format!("{:?}", r), table1[1].map(|i| Err(ERRS1[i])).unwrap_or(Ok(ctap1::Response::Authenticate(auth_value())))),
+        ctap1::Request::Register(r) => ("register", format!("{:?}", r), table1[0].map(|i| Err(ERRS1[i])).unwrap_or(Ok(ctap1::Response::Register(reg_value(salt))))),
+        ctap1::Request::Authenticate(r) => ("authenticate", format!("{:?}", r), table1[1].map(|i| Err(ERRS1[i])).unwrap_or(Ok(ctap1::Response::Authenticate(auth_value(salt))))),
         ctap1::Request::Version => ("", String::new(), Ok(ctap1::Response::Version(*b"MOCKV1"))),
     };
     obs.labelf(format!("ctap1:{}", if hname.is_empty() { "version" } else { hname }));
@@ -305,7 +346,7 @@ fn g_ctap1(src: &mut Src, obs: &mut Obs) -> CaseResult {
     obs.sample_with(case);
     let fail = |what: &str, m: String| Fail::new(format!("C10:ctap1:{}:{}", if hname.is_empty() { "version" } else { hname }, what), m, case());
     for entry in 0..2 {
-        let mut m = WithLb(Mock { log: vec![], table: [None; 10], table1, has_large_blobs: true });
+        let mut m = WithLb(Mock { salt, log: vec![], table: [None; 10], table1, has_large_blobs: true });
         let got = if entry == 0 {
             ctap1::Authenticator::call_ctap1(&mut m, &req)
         } else {
@@ -342,7 +383,7 @@ pub fn gens() -> Vec<Gen> {
     vec![G2, G1]
 }
 
-pub const RULE: &str = "A recording mock implements both Authenticator traits: every handler appends (name, Debug rendering of its argument) to a log and returns a handler-specific success value or one of every named CTAP2 status (55) / 24 ISO 7816 status words incl. Success according to a generated behaviour table (handler -> Ok | Err(e_i)); a second mock leaves large_blobs at its default; version() is overridden. Requests: every CTAP2 variant (exhaustive over the 10 variants and all 64 vendor codes 0x40..0x7F; parameter-bearing ones obtained by decoding messages from the C01 generator) and the 3 CTAP1 variants (decoded from framed APDUs), each crossed with proptest behaviour tables and with both entry points (call_ctap2 / call_ctap1 and Rpc::call). Oracle: exactly one log entry (none for CTAP1 Version), for the command's handler, with an argument rendering equal to the request payload's; result = Ok(same-named variant(handler value)) or Err(handler error) unchanged; GetInfo Ok whatever the table; default large_blobs -> Err(InvalidCommand) with an empty log; both entry points agree. Non-trivial: the behaviour table gives the invoked handler an outcome that differs from at least one other handler (so cross-wiring is observable).";
+pub const RULE: &str = "A recording mock implements both Authenticator traits: every handler appends (name, Debug rendering of its argument) to a log and returns a handler-specific success value in which every optional member is set and whose contents vary from case to case (counts 0/1/2/3/7, presence bytes 0x00/0x01/0x02/0x80/0xFE/0xFF, flags) or one of every named CTAP2 status (55) / 24 ISO 7816 status words incl. Success according to a generated behaviour table (handler -> Ok | Err(e_i)); a second mock leaves large_blobs at its default; version() is overridden. Requests: every CTAP2 variant (exhaustive over the 10 variants and all 64 vendor codes 0x40..0x7F; parameter-bearing ones obtained by decoding messages from the C01 generator) and the 3 CTAP1 variants (decoded from framed APDUs), each crossed with proptest behaviour tables and with both entry points (call_ctap2 / call_ctap1 and Rpc::call). Oracle: exactly one log entry (none for CTAP1 Version), for the command's handler, with an argument rendering equal to the request payload's; result = Ok(same-named variant(handler value)) or Err(handler error) unchanged; GetInfo Ok whatever the table; default large_blobs -> Err(InvalidCommand) with an empty log; both entry points agree. Non-trivial: the behaviour table gives the invoked handler an outcome that differs from at least one other handler (so cross-wiring is observable).";
 pub const ASSUMPTIONS: &[&str] = &["handler arguments are compared through their Debug rendering (the argument types are not Clone-free comparable across the trait boundary)"];
 
 pub fn run(ctx: &mut Ctx) {
